@@ -11,8 +11,9 @@
 //!    channel changes neither output nor value.
 //! Model cases: the scheduler trace of one run per program (`sched …`: blocked reads, popped tokens, order)
 //! and `heapcopy <value>` for what the reader received.
-//! Known finding D23 (a channel holds raw pointers into the writer's heap): mutation after the write
-//! (in process) and writer finished before the read (child process: it can abort the host).
+//! Repaired defect D23 (a message is a snapshot taken when it is written, fix 97d7808): hard regression runs —
+//! mutation after the write (in process), writer finished before the read (child process), and the snapshot
+//! stream (`heapsend` model requests).
 #[path = "../sched_common.rs"]
 mod sched_common;
 #[path = "../sched_gen.rs"]
@@ -37,6 +38,8 @@ struct Job {
     model: Option<(String, usize)>,
     /// `heapalias` request: the answer is all printed lines joined by `;`
     alias_model: Option<String>,
+    /// `heapsend` request (snapshots at write time): the answer is all printed lines joined by `;`
+    send_model: Option<String>,
     scheds: Vec<Schedule>,
 }
 
@@ -74,6 +77,7 @@ fn gen_value_job(rng: &mut Rng, i: usize) -> Job {
             oracle: None,
             model: Some((sexpr(&v), 0)),
             alias_model: None,
+            send_model: None,
             scheds: schedules(rng),
         }
     } else {
@@ -97,6 +101,7 @@ fn gen_value_job(rng: &mut Rng, i: usize) -> Job {
             oracle: None,
             model: Some((sexpr(&v), 0)),
             alias_model: None,
+            send_model: None,
             scheds: schedules(rng),
         }
     }
@@ -148,7 +153,77 @@ fn gen_chan_forms(rng: &mut Rng, i: usize) -> Job {
             ("value:void-between-tasks:forms", vec![(n * m).to_string()])
         }
     };
-    Job { src: s, class: class.to_string(), expected: Some(expected), oracle: None, model: None, alias_model: None, scheds: schedules(rng) }
+    Job { src: s, class: class.to_string(), expected: Some(expected), oracle: None, model: None, alias_model: None, send_model: None, scheds: schedules(rng) }
+}
+
+/// A message is a snapshot taken when it is written (fix 97d7808 of D23): the writer mutates the sent object after the
+/// write and before the read, exits before the read, sends the same object twice, sends a struct containing the
+/// channel itself; the reader mutates what it received.  Nothing is visible across.
+fn gen_snapshot(rng: &mut Rng, i: usize) -> Job {
+    let a = rng.range(0, 99);
+    let b = rng.range(0, 99);
+    let k = rng.range(100, 199);
+    let k2 = rng.range(200, 299);
+    let mut s = String::from(DECLS);
+    let junk = "var j = 0\nwhile j < 150 {\n  let junk = \"x\" .. j\n  j = j + 1\n}\n";
+    let (class, expected, send_model): (&str, Vec<String>, Option<String>) = match i % 6 {
+        0 => {
+            s.push_str(&format!(
+                "let c: channel<array<int>> = channel()\nlet go: channel<bool> = channel()\nlet out: channel<string> = channel()\ntask {{\n  go.read()\n  let x = c.read()\n  let s1 = show_arrint(x)\n  out.write(s1)\n  x.push({k2})\n  let s2 = show_arrint(x)\n  out.write(s2)\n}}\nlet xs = [{a}, {b}]\nc.write(xs)\nxs.push({k})\ngo.write(true)\nlet r0 = out.read()\nlet r1 = out.read()\nprintln(r0)\nprintln(r1)\nprintln(show_arrint(xs))\n"
+            ));
+            (
+                "value:mutated-after-write:snapshot",
+                vec![format!("(A {a} {b})"), format!("(A {a} {b} {k2})"), format!("(A {a} {b} {k})")],
+                Some(format!("heapsend (A {a} {b}) | W 0 ; M push 0 {k} ; R ; T show 0 ; T push 0 {k2} ; T show 0 ; M show 0")),
+            )
+        }
+        1 => {
+            s.push_str(&format!(
+                "let c: channel<Box> = channel()\nlet done: channel<bool> = channel()\ntask {{\n  let b = Box({a}, \"s\")\n  c.write(b)\n  b.v = {k}\n  done.write(true)\n}}\ndone.read()\n{junk}let x = c.read()\nprintln(show_box(x))\nx.v = {k2}\nprintln(show_box(x))\n"
+            ));
+            (
+                "value:writer-exits-before-read:snapshot",
+                vec![format!("(S {a} 's')"), format!("(S {k2} 's')")],
+                Some(format!("heapsend (S {a} 's') | W 0 ; M set 0 0 {k} ; R ; T show 0 ; T set 0 0 {k2} ; T show 0")),
+            )
+        }
+        2 => {
+            s.push_str(&format!(
+                "let c: channel<Box> = channel()\nlet out: channel<string> = channel()\ntask {{\n  let x = c.read()\n  let y = c.read()\n  let s1 = show_box(x)\n  out.write(s1)\n  x.v = {k2}\n  let s2 = show_box(y)\n  out.write(s2)\n  let s3 = show_box(x)\n  out.write(s3)\n}}\nlet bx = Box({a}, \"s\")\nc.write(bx)\nbx.v = {k}\nc.write(bx)\nlet r0 = out.read()\nlet r1 = out.read()\nlet r2 = out.read()\nprintln(r0)\nprintln(r1)\nprintln(r2)\nprintln(show_box(bx))\n"
+            ));
+            (
+                "value:same-object-sent-twice:snapshot",
+                vec![format!("(S {a} 's')"), format!("(S {k} 's')"), format!("(S {k2} 's')"), format!("(S {k} 's')")],
+                Some(format!("heapsend (S {a} 's') | W 0 ; M set 0 0 {k} ; W 0 ; R ; R ; T show 0 ; T set 0 0 {k2} ; T show 1 ; T show 0 ; M show 0")),
+            )
+        }
+        3 => {
+            s.push_str(&format!(
+                "type Pk = {{\n  v: int\n  ch: channel<Pk>\n}}\nlet c: channel<Pk> = channel()\nlet done: channel<bool> = channel()\ntask {{\n  let p = c.read()\n  p.ch.write(Pk(p.v + 1, p.ch))\n  done.write(true)\n}}\nc.write(Pk({a}, c))\ndone.read()\nlet q = c.read()\nprintln(q.v)\nq.ch.write(Pk(q.v + 1, q.ch))\nlet r = c.read()\nprintln(r.v)\n"
+            ));
+            ("value:message-contains-its-channel:snapshot", vec![format!("{}", a + 1), format!("{}", a + 2)], None)
+        }
+        4 => {
+            let n = rng.range(20, 60);
+            s.push_str(&format!(
+                "let c: channel<Box> = channel()\nlet done: channel<bool> = channel()\ntask {{\n  for i in {n} {{\n    let b = Box(i, \"m\" .. i)\n    c.write(b)\n    b.v = 0 - 1\n    b.s = \"gone\"\n  }}\n  done.write(true)\n}}\ndone.read()\n{junk}var tot = 0\nvar last = \"\"\nfor i in {n} {{\n  let x = c.read()\n  tot = tot + x.v\n  last = x.s\n}}\nprintln(last)\nprintln(tot)\n"
+            ));
+            ("value:stress-many-messages-writer-gone:snapshot", vec![format!("m{}", n - 1), format!("{}", n * (n - 1) / 2)], None)
+        }
+        _ => {
+            // any of the nested value types, written by a task that mutates it afterwards and exits
+            let ty = ALL_TYS[(i / 6) % ALL_TYS.len()];
+            let v = gen_value(rng, ty);
+            let nm = if ty.mutable() { 2 } else { 0 };
+            let (tm, _) = mutate(rng, "v", ty, &v, nm, 700);
+            s.push_str(&format!(
+                "let c: channel<{}> = channel()\nlet done: channel<bool> = channel()\ntask {{\n  let v: {} = {}\n  c.write(v)\n{}  done.write(true)\n}}\ndone.read()\n{junk}let x = c.read()\nprintln({}(x))\n",
+                ty.abra(), ty.abra(), expr(&v, ty), indent(&tm, "  "), ty.show()
+            ));
+            ("value:nested-value-writer-gone:snapshot", vec![sexpr(&v)], Some(format!("heapsend {} | W 0 ; R ; T show 0", sexpr(&v))))
+        }
+    };
+    Job { src: s, class: class.to_string(), expected: Some(expected), oracle: None, model: None, alias_model: None, send_model, scheds: schedules(rng) }
 }
 
 fn gen_pc_job(rng: &mut Rng) -> Job {
@@ -159,7 +234,7 @@ fn gen_pc_job(rng: &mut Rng) -> Job {
         src = src.replacen(PC_PRELUDE, &format!("{PC_PRELUDE}let never: channel<int> = channel()\ntask {{\n  let z = never.read()\n}}\n"), 1);
         class.push_str(":+blocked-reader");
     }
-    Job { src, class, expected: None, oracle: Some(info.seq_src), model: None, alias_model: None, scheds: schedules(rng) }
+    Job { src, class, expected: None, oracle: Some(info.seq_src), model: None, alias_model: None, send_model: None, scheds: schedules(rng) }
 }
 
 struct Res {
@@ -201,6 +276,9 @@ fn main() {
         if i % 3 == 0 {
             jobs.push(gen_chan_forms(&mut ctx.rng, i / 3));
         }
+        if i % 2 == 1 {
+            jobs.push(gen_snapshot(&mut ctx.rng, i / 2));
+        }
         if i % 2 == 0 {
             // shared and cyclic payloads (a channel read copies with a fresh map, fix 0cb8741)
             let c = gen_alias_channel(&mut ctx.rng, i / 2);
@@ -211,6 +289,7 @@ fn main() {
                 oracle: None,
                 model: None,
                 alias_model: c.model,
+                send_model: None,
                 scheds: schedules(&mut ctx.rng),
             });
         }
@@ -311,6 +390,10 @@ fn main() {
         if let Some((req, ans)) = r.trace {
             ctx.case(req, ans);
         }
+        if let (Some(req), Some(first)) = (&j.send_model, r.runs.first()) {
+            let lines: Vec<&str> = first.2.lines().collect();
+            ctx.case(format!("{req} #{}", cls[1]), lines.join(";"));
+        }
         if let (Some(req), Some(first)) = (&j.alias_model, r.runs.first()) {
             let lines: Vec<&str> = first.2.lines().collect();
             ctx.case(format!("{req} #{}", cls[1]), format!("{} {}", lines.join(";"), if ok { "owned" } else { "shared" }));
@@ -321,31 +404,27 @@ fn main() {
             }
         }
     }
-    // ---- known finding D23, witness 1: mutation after the write is seen by the reader
+    // ---- regression of the repaired defect D23 (fix 97d7808), hard checks
     {
         let r = run_program_budget(D23A, 7);
         if matches!(r.outcome, Outcome::Done) && r.out == "1\n" {
-            ctx.notes.push("D23 (mutate after write) no longer reproduces".into());
+            ctx.count("regression:D23A-ok");
         } else {
-            ctx.known_findings.push("D23".into());
-            ctx.notes.push(format!("D23 replay 1 (`c.write(b); b.v = 2; c.read().v`): {} printed {:?}, written value has v = 1", r.outcome.tag(), r.out));
+            ctx.spec_fail(format!("`c.write(b); b.v = 2; println(c.read().v)` must print 1 (the message is the value as written): {} printed {:?} :: {}", r.outcome.tag(), r.out, D23A.replace('\n', "\\n")));
         }
     }
-    // ---- witness 2: the writer finished before the read — in a child process
+    // the writer finished before the read — in a child process: a use of freed memory can abort the host
     let exe = std::env::current_exe().unwrap();
     match std::process::Command::new(exe).arg("--child-d23b").output() {
         Ok(o) => {
             let text = String::from_utf8_lossy(&o.stdout).trim().to_string();
             if o.status.success() {
-                ctx.notes.push(format!("D23 (writer finished before the read) did not fail in this run: {text}"));
+                ctx.count("regression:D23B-ok");
             } else {
-                if !ctx.known_findings.contains(&"D23".to_string()) {
-                    ctx.known_findings.push("D23".into());
-                }
-                ctx.notes.push(format!("D23 replay 2 (writer finished before the read): child ended with {:?} {text}", o.status));
+                ctx.spec_fail(format!("a string written by a task that then finishes must be read intact (\"payload-12345\"): child ended with {:?} {text} :: {}", o.status, D23B.replace('\n', "\\n")));
             }
         }
-        Err(e) => ctx.notes.push(format!("D23 replay 2 could not be started: {e}")),
+        Err(e) => ctx.notes.push(format!("D23B regression could not be started: {e}")),
     }
     ctx.finish();
 }
